@@ -835,6 +835,24 @@ func runC07(c *Ctx) {
 					}
 				}
 			}
+			// a guard on the result of search (the lower bound computed by sort.Search over [0, len], rule lower-bound)
+			// being negative or beyond len(slice): cannot fire
+			if pl, kind, isInt := last.IntNorm(); isInt && kind == ">" {
+				for _, at := range pl.Atoms {
+					if at.Op != "call" || !strings.HasSuffix(at.Sym, "(*Sorted).search") {
+						continue
+					}
+					sp := polyAtom(at)
+					if pl.Equal(polyConst(0).Add(sp, -1)) { // search < 0
+						just = true
+					}
+					for _, at2 := range pl.Atoms {
+						if at2.Op == "builtin" && at2.Sym == "len" && len(at2.Args) == 1 && isFieldLoad(at2.Args[0], sliceF, recv) && pl.Equal(sp.Add(polyAtom(at2), -1)) { // search > len
+							just = true
+						}
+					}
+				}
+			}
 			if !just {
 				ok, why = false, "panics on a path decided by "+last.String()+", which is none of: nil receiver, nil comparator, index < 0, index >= Len"
 			}
